@@ -116,8 +116,7 @@ def rule_r2(ctx):
                 ctx.r.violation(rid, key_of(f, None, "continue-guard-missing::" + k.split(" (")[0]), "send_continue() in %s is not guarded by '%s'" % (f.qual, k), f.loc(n.ast))
 
 
-def rule_r3(ctx):
-    rid = "C19.R3"
+def rule_r3(ctx, rid="C19.R3"):
     ctx.r.rule(rid, "at most one interim per request: the sender sets the latch and clears the expectation; the latch is cleared only where a request completes")
     p = ctx.p
     f = p.func("channel.HTTPChannel.send_continue")
